@@ -64,6 +64,16 @@ Theorem ==
       /\ Encodable(OnWire(ra)) /\ OnWire(OnWire(ra)) = OnWire(ra)
       /\ (IsZero(ra.life) <=> (~sys.fwd \/ IsZero(e.life)))
       /\ Misconfigured(e, sys) = (~sys.fwd /\ ~IsZero(e.life))
+\* The PREF64 lifetime rule of C01 as arithmetic facts, over EVERY accepted MaxRtrAdvInterval in whole milliseconds
+\* (4 s .. 1800 s): a multiple of 8 s, never below three intervals, less than 8 s above them, capped at 65528 s.
+CONSTANT P64Stride      \* 1: every millisecond value; larger strides in the quick tier
+ASSUME Pref64Lemma ==
+  \A k \in 0..((1800000 - 4000) \div P64Stride) :
+    LET mx == 4000 + k * P64Stride
+        l == Pref64Life(mx) IN
+    /\ l.k = "fin" /\ l.ms = 0 /\ l.ns = 0 /\ l.s % 8 = 0 /\ l.s <= 65528
+    /\ l.s * 1000 >= 3 * mx
+    /\ l.s * 1000 < 3 * mx + 8000
 \* the domain is not vacuous: some documents are accepted, some rejected
 AcceptedSeen == Accept(doc) => TRUE
 =============================================================================
